@@ -4,7 +4,8 @@ D="$1"; PROP="$2"; shift 2
 cd /repo || exit 3
 git diff --quiet || { echo "repo dirty"; exit 3; }
 git apply "$D/patch.diff" || { echo "patch does not apply"; exit 3; }
-cd /verif && ./check "$PROP" "$@" > /tmp/seedtest.$$.log 2>&1; RC=$?
+cp -r /verif/evidence /tmp/evidence.bak.$$; cd /verif && ./check "$PROP" "$@" > /tmp/seedtest.$$.log 2>&1; RC=$?
 grep -E "^\[|VIOLATION|UNDECIDED|DOWNGRADED|CRASH|KNOWN" /tmp/seedtest.$$.log | head -8
 echo "exit=$RC"; rm -f /tmp/seedtest.$$.log
 git -C /repo checkout -- .
+rm -rf /verif/evidence && mv /tmp/evidence.bak.$$ /verif/evidence
